@@ -90,3 +90,105 @@ theorem validResample_of_length (n : Nat) (idx : List Nat) (hl : idx.length = n)
   exact ⟨by rw [hl, drawCount_eq], hb⟩
 
 end BootstrapSrc
+
+/-! ### control features: the per-level computation is the resampled frame filtered by level -/
+namespace Bootstrap
+open BaseMetrics Weights
+
+theorem levelRows_rank (L : Nat) : ∀ (tr : List TRow) (i : Nat) (p : TRow), tr[i]? = some p → p.1 = L →
+    (levelRows L tr)[rank L tr i]? = some p.2 := by
+  intro tr
+  induction tr with
+  | nil => intro i p h; simp at h
+  | cons a t ih =>
+    intro i p h hp
+    cases i with
+    | zero =>
+      simp only [List.getElem?_cons_zero, Option.some.injEq] at h
+      subst h
+      simp [levelRows, rank, hp]
+    | succ k =>
+      simp only [List.getElem?_cons_succ] at h
+      have := ih k p h hp
+      by_cases ha : a.1 = L
+      · simp [levelRows, rank, ha] at this ⊢; exact this
+      · simp [levelRows, rank, ha] at this ⊢; exact this
+
+/-- picking, from the rows of level L, the restricted positions of a resample gives exactly the level-L rows of the
+    resampled data, in drawing order -/
+theorem pick_restrict (L : Nat) (tr : List TRow) : ∀ (idx : List Nat), (∀ i ∈ idx, i < tr.length) →
+    pick (levelRows L tr) (restrict L tr idx) = some (levelRows L (idx.filterMap (fun i => tr[i]?))) := by
+  intro idx
+  induction idx with
+  | nil => intro _; rfl
+  | cons i rest ih =>
+    intro h
+    have hi : i < tr.length := h i (by simp)
+    have hr := ih (fun j hj => h j (by simp [hj]))
+    obtain ⟨p, hp⟩ : ∃ p, tr[i]? = some p := ⟨tr[i], by simp [hi]⟩
+    by_cases hL : p.1 = L
+    · have hk := levelRows_rank L tr i p hp hL
+      have e1 : restrict L tr (i :: rest) = rank L tr i :: restrict L tr rest := by
+        simp [restrict, hp, hL]
+      have e2 : levelRows L ((i :: rest).filterMap (fun i => tr[i]?)) =
+          p.2 :: levelRows L (rest.filterMap (fun i => tr[i]?)) := by
+        simp [levelRows, hp, hL]
+      rw [e1, e2]
+      simp only [pick, List.mapM_cons] at hr ⊢
+      rw [hk, hr]; rfl
+    · have e1 : restrict L tr (i :: rest) = restrict L tr rest := by
+        simp [restrict, hp, hL]
+      have e2 : levelRows L ((i :: rest).filterMap (fun i => tr[i]?)) =
+          levelRows L (rest.filterMap (fun i => tr[i]?)) := by
+        simp [levelRows, hp, hL]
+      rw [e1, e2]; exact hr
+
+/-- no cross-talk between control levels: data sets that agree on the control tags everywhere and on the rows of level L
+    have the same CI at level L, whatever the other rows are -/
+theorem levelRows_congr (L : Nat) : ∀ (tr1 tr2 : List TRow), tr1.map (fun p => p.1) = tr2.map (fun p => p.1) →
+    (∀ (i : Nat) (p q : TRow), tr1[i]? = some p → tr2[i]? = some q → p.1 = L → p.2 = q.2) → levelRows L tr1 = levelRows L tr2 := by
+  intro tr1
+  induction tr1 with
+  | nil => intro tr2 h _; cases tr2 <;> simp_all [levelRows]
+  | cons a t ih =>
+    intro tr2 h hrows
+    cases tr2 with
+    | nil => simp at h
+    | cons b u =>
+      simp only [List.map_cons, List.cons.injEq] at h
+      have ht := ih u h.2 (fun i p q hp hq => hrows (i + 1) p q (by simp [hp]) (by simp [hq]))
+      have hab := hrows 0 a b rfl rfl
+      by_cases ha : a.1 = L
+      · have hb : b.1 = L := h.1 ▸ ha
+        simp only [levelRows] at ht ⊢
+        simp [ha, hb, hab ha, ht]
+      · have hb : ¬ b.1 = L := h.1 ▸ ha
+        simp only [levelRows] at ht ⊢
+        simp [ha, hb, ht]
+
+theorem restrict_congr (L : Nat) (tr1 tr2 : List TRow) (h : tr1.map (fun p => p.1) = tr2.map (fun p => p.1)) (idx : List Nat) :
+    restrict L tr1 idx = restrict L tr2 idx := by
+  have hget : ∀ i : Nat, (tr1[i]?).map (fun p => p.1) = (tr2[i]?).map (fun p => p.1) := by
+    intro i
+    have := congrArg (fun l => l[i]?) h
+    simpa [List.getElem?_map] using this
+  have hrank : ∀ i, rank L tr1 i = rank L tr2 i := by
+    intro i
+    have ht : (tr1.take i).map (fun p => p.1) = (tr2.take i).map (fun p => p.1) := by rw [List.map_take, List.map_take, h]
+    have e : ∀ (l : List TRow), (l.filter (fun p => p.1 == L)).length = ((l.map (fun p => p.1)).filter (· == L)).length := by
+      intro l; induction l with
+      | nil => rfl
+      | cons a t ih => by_cases ha : a.1 = L <;> simp [ha, ih]
+    unfold rank; rw [e, e, ht]
+  unfold restrict
+  have hf : ∀ i : Nat, ((tr1[i]?).map (fun (p : TRow) => p.1 == L)).getD false =
+      ((tr2[i]?).map (fun (p : TRow) => p.1 == L)).getD false := by
+    intro i
+    have := hget i
+    cases h1 : tr1[i]? <;> cases h2 : tr2[i]? <;> simp_all
+  have hfun : (fun i : Nat => ((tr1[i]?).map (fun (p : TRow) => p.1 == L)).getD false) =
+      (fun i : Nat => ((tr2[i]?).map (fun (p : TRow) => p.1 == L)).getD false) := funext hf
+  rw [hfun]
+  exact List.map_congr_left (fun i _ => hrank i)
+
+end Bootstrap
